@@ -86,6 +86,23 @@ def run(ctx):
         if not ok and not cli_bad:
             cli_bad = {'depth': d, 'batch': b, 'output_state': label, 'exit': p_.returncode, 'bytes_on_disk': len(got), 'bytes_expected': len(want),
                        'first_difference': first_diff(want, got)}
+    # an extraction the library refuses (xtool extract prints `error …`: deletion circuits stop at depth 31) must
+    # be reported by the command and must not replace an existing model
+    for d, b in ((32, 1), (40, 2)):
+        lib = extract(d, b)
+        if not lib.startswith('error '):
+            continue   # the library accepts these dimensions now: nothing to compare
+        open(outp, 'w').write(committed)
+        p_ = common.run([cli, 'extract-circuit', '--output', outp, '--tree-depth', str(d), '--batch-size', str(b)])
+        got = open(outp).read() if os.path.exists(outp) else ''
+        programs += 1
+        ok = p_.returncode != 0 and got == committed
+        ctx.oblige(f'`gnark-mbu extract-circuit` ({d},{b}), refused by ExtractLean: non-zero exit, existing model left as it was', ok,
+                   '' if ok else f'exit {p_.returncode}, {len(got)} bytes on disk')
+        if not ok and not cli_bad:
+            cli_bad = {'depth': d, 'batch': b, 'output_state': 'path holding the committed model (ExtractLean returns an error for these dimensions)',
+                       'exit': p_.returncode, 'bytes_on_disk': len(got), 'bytes_expected': len(committed),
+                       'first_difference': first_diff(committed, got)}
     if os.path.exists(outp):
         os.remove(outp)
     # translation validation proper: the committed model, flattened (gadgets inlined, wires
